@@ -1,5 +1,5 @@
 from vdriver import Job
-from props import seqcases, C02 as _C02
+from props import seqcases, C02 as _C02, C03 as _C03
 
 LEVEL = "other"
 TECHNIQUE = "CBMC contracts on header_init/alloc/dealloc/del (DFCC + harness proofs through the real Type.c lookup), non-heap receivers of String/Tuple mutators as exceptional postconditions"
@@ -27,5 +27,5 @@ def jobs(tier):
                          replace_calls=["exception_throw:cv_throw"], unwind=20, group="C19.%s.k2" % h, also=["C12", "C06"], case="type %s" % t,
                          replay="C19_dealloc.c"))
     J += seqcases.array_jobs(tier, "C19")
-    J += _C02.table_jobs(tier, "C19")
+    J += _C02.table_jobs(tier, "C19") + _C03.tree_jobs(tier, "C19")
     return J
